@@ -187,14 +187,21 @@ def run(R):
         s2sum = [s for s in sums if s[1] and s[1] <= {"s"}]
         s1sum = [s for s in sums if need <= s[1]]
         lim2 = (12159) ** 2
-        R.check(len(s2sum) == 1 and s2sum[0][0][0] >= 0 and s2sum[0][0][1] <= lim2 and s2sum[0][2] in ((N, N), None), "C02-ingr", vsite + " ||s2||^2",
+        lim1 = (Q // 2) ** 2
+        # one sum over the 2N squares of both vectors (`s1.iter().chain(s2.iter())`) is the same quantity
+        chained = (len(sums) == 1 and need <= sums[0][1] and sums[0][2] in ((2 * N, 2 * N), None) and sums[0][0][0] >= 0 and sums[0][0][1] <= max(lim1, lim2))
+        if chained:
+            R.ok("C02-ingr", vsite + " ||s1||^2 + ||s2||^2", f"one sum over {2 * N} squares (both vectors chained), each in {sums[0][0]}, depending on all four inputs", key=f"s2|{N}")
+            R.ok("C02-ingr", vsite + " ||s1||^2", "(part of the chained sum)", key=f"s1|{N}")
+            R.ok("C02-ingr", vsite, "one chained sum feeds the norm", key=f"nsums|{N}")
+        R.check(chained or (len(s2sum) == 1 and s2sum[0][0][0] >= 0 and s2sum[0][0][1] <= lim2 and s2sum[0][2] in ((N, N), None)), "C02-ingr", vsite + " ||s2||^2",
                 f"one sum over {N} squares of values that depend on the signature body only, each in {s2sum[0][0] if s2sum else '?'}",
                 f"sums over signature-only terms: {[(s[0], s[2]) for s in s2sum]} (expected exactly one, {N} terms, squares of decoded coefficients)", key=f"s2|{N}")
         lim1 = (Q // 2) ** 2
-        R.check(len(s1sum) == 1 and s1sum[0][0][0] >= 0 and s1sum[0][0][1] <= lim1 and s1sum[0][2] in ((N, N), None), "C02-ingr", vsite + " ||s1||^2",
+        R.check(chained or (len(s1sum) == 1 and s1sum[0][0][0] >= 0 and s1sum[0][0][1] <= lim1 and s1sum[0][2] in ((N, N), None)), "C02-ingr", vsite + " ||s1||^2",
                 f"one sum over {N} squares of centred representatives (each at most {lim1}) that depend on all four inputs",
                 f"sums over terms depending on all inputs: {[(s[0], sorted(map(str, s[1])), s[2]) for s in s1sum]} (expected one, {N} terms, each term <= {lim1} = 6144^2)", key=f"s1|{N}")
-        R.check(len(sums) == 2, "C02-ingr", vsite, "exactly two sums feed the norm", f"{len(sums)} sums observed", key=f"nsums|{N}")
+        R.check(chained or len(sums) == 2, "C02-ingr", vsite, "exactly two sums feed the norm", f"{len(sums)} sums observed", key=f"nsums|{N}")
         # decompress gets the stored body and N
         okd = len(dec) == 1 and dec[0][1] == N and type(dec[0][0]) is Pt and dec[0][0].key == ("h", "sig")
         R.check(okd, "C02-flow", vsite + " -> decompress", f"decompress is applied to the signature's stored body with n = {N}", f"decompress calls: {dec}", key=f"dec|{N}")
